@@ -364,7 +364,9 @@ func verifC16Setup(volatile bool, level int) *verifC16Scenario {
 		verifAssume(x > -lim)
 		verifAssume(x < lim)
 	}
-	sc.apZero = verifBool("appendedIsZero")
+	// (the staleness inputs matter for none and auto only; a concrete value elsewhere saves a fork)
+	staleLevel := sc.level == proto.ConsistencyLevel_NONE || sc.level == proto.ConsistencyLevel_AUTO
+	sc.apZero = staleLevel && verifChoice("appendedIsZero", 2) == 1
 	sc.fresh = verifI64("freshness")
 	sc.strict = verifBool("strict")
 	verifSetClock(sc.now)
@@ -373,7 +375,9 @@ func verifC16Setup(volatile bool, level int) *verifC16Scenario {
 	s := verifNewStore()
 	sc.s = s
 	// FSM progress before the read: the highest applied index was signalled; it cannot exceed the commit index
+	// (index 0 = nothing applied yet leaves the ReadyTarget in its initial state: same as C38's empty log)
 	sc.fsmIdx = verifU64("fsmIdx")
+	verifAssume(sc.fsmIdx >= 1)
 	verifAssume(sc.fsmIdx <= w.commit)
 	s.fsmIdx.Store(sc.fsmIdx)
 	s.fsmTarget.Signal(sc.fsmIdx)
@@ -623,25 +627,3 @@ func VerifC16bTwin() {
 	out := verifC16Query(sc.s, verifC16QueryReq(sc))
 	verifAssert("twin", !(out.served && sc.level == proto.ConsistencyLevel_WEAK))
 }
-
-func verifC16Dbg(unified bool, level int) {
-	sc := verifC16Setup(true, level)
-	defer sc.done()
-	var out verifC16Out
-	if unified {
-		sc.w.resp = &fsmExecuteQueryResponse{}
-		out = verifC16Request(sc.s, verifC16UnifiedReq(sc))
-	} else {
-		sc.w.resp = &fsmQueryResponse{}
-		out = verifC16Query(sc.s, verifC16QueryReq(sc))
-	}
-	sc.check(out, unified)
-}
-func VerifDbgQ0() { verifC16Dbg(false, 0) }
-func VerifDbgQ1() { verifC16Dbg(false, 1) }
-func VerifDbgQ2() { verifC16Dbg(false, 2) }
-func VerifDbgQ3() { verifC16Dbg(false, 3) }
-func VerifDbgQ4() { verifC16Dbg(false, 4) }
-func VerifDbgR0() { verifC16Dbg(true, 0) }
-func VerifDbgR3() { verifC16Dbg(true, 3) }
-func VerifDbgR4() { verifC16Dbg(true, 4) }
